@@ -8,7 +8,10 @@ Local Open Scope Z_scope.
 
 Definition eth (a : addr) (n : nat) (g : Z) : msg := Leaf (EthTx a n g WEI 1 (x_transfer WEI)).
 (** contract creation / contract call carrying [v] unibi at a gas price of 0 (charged at the base fee) *)
-Definition xc (k : xkind) (out : xout) (intr : Z) : xinfo := {| x_kind := k; x_cap := 0; x_intr := intr; x_exec := 0; x_out := out |}.
+Definition xc (k : xkind) (out : xout) (intr : Z) : xinfo := {| x_kind := k; x_ty := TLegacy; x_raw := 0; x_cap := 0; x_intr := intr; x_exec := 0; x_out := out |}.
+(** plain transfer of transaction type [ty] naming [raw] wei per gas *)
+Definition xt (ty : txty) (raw cap : Z) : xinfo :=
+  {| x_kind := XCall; x_ty := ty; x_raw := raw; x_cap := cap; x_intr := 21000; x_exec := 0; x_out := XStop |}.
 Definition ethx (a : addr) (n : nat) (g v : Z) (x : xinfo) : msg := Leaf (EthTx a n g WEI v x).
 Definition evm_tx (ms : list msg) : tx := {| t_ext := EvmExt; t_signer := 98; t_key := KNone; t_fee := 1000000; t_msgs := ms |}.
 Definition cos_tx (s : addr) (ms : list msg) : tx := {| t_ext := NoExt; t_signer := s; t_key := KCosmos; t_fee := 1000000; t_msgs := ms |}.
@@ -33,6 +36,10 @@ Definition sweep_cases : list (list tx) := [
   [evm_tx [eth 20 0 21000]; cos_tx 0 [Wasm 0 10 [Exec 10 [Leaf (EthTxAs 10 20 0 50000 WEI 1 (x_transfer WEI))]]]];
   [evm_tx [eth 20 0 21000]; cos_tx 1 [Exec 1 [Leaf (EthTxAs 1 20 0 50000 WEI 1 (x_transfer WEI))]]];
   [evm_tx [eth 20 0 21000]; cos_tx 1 [Leaf (EthTxAs 1 20 0 50000 WEI 1 (x_transfer WEI))]];
+  (* the three transaction types naming 1 wei per gas, with leftover gas, next to another payer *)
+  [evm_tx [Leaf (EthTx 20 0 21000 (5 * WEI) 1 (x_transfer (5 * WEI))); Leaf (EthTx 21 0 100000 (eff_legacy 1) 1 (xt TAccess 1 1))]];
+  [evm_tx [Leaf (EthTx 20 0 21000 (5 * WEI) 1 (x_transfer (5 * WEI))); Leaf (EthTx 21 0 100000 (eff_legacy 1) 1 (xt TLegacy 1 1))]];
+  [evm_tx [Leaf (EthTx 20 0 21000 (5 * WEI) 1 (x_transfer (5 * WEI))); Leaf (EthTx 21 0 100000 (eff_dynamic 1 1) 1 (xt TDynamic (raw_dynamic 1 1) 1))]];
   (* executions that fail: the sender can pay the value or the prepayment but not both; REVERT; invalid opcode;
      each delivered twice *)
   [evm_tx [ethx 23 0 100000 350000 (xc XCreate XStop 53004)]; evm_tx [ethx 23 0 100000 350000 (xc XCreate XStop 53004)]];
